@@ -1,9 +1,9 @@
 """Rules on matlab.h through the clang AST (C18 K1-K7, C11 H5)."""
 from __future__ import annotations
 
-from typing import Dict, List, Optional, Tuple
+from typing import Dict, List, Optional, Set, Tuple
 
-from .clangx import (HeaderAST, call_args, callee, calls, canon_type, line_of, ref_name, statements,
+from .clangx import (HeaderAST, _body, call_args, callee, calls, canon_type, line_of, ref_name, statements,
                      strip, walk)
 from .core import AnalysisError, Report
 
@@ -490,3 +490,64 @@ def rule_handle_protocol(ctx, rep: Report, rid="K7"):
                                                     and all(d.get("isArray") for d in dels)
                                                     and all(x.get("isArray") for x in news))),
             f"{len(news)} new, {len(dels)} delete", hloc(f))
+
+
+def rule_returns_depend_on_argument(ctx, rep: Report, rid="K8"):
+    """Every `return` of a value-converting unwrap<T> / wrap<T> specialisation hands back something computed from
+    the function's argument.  A path that returns a default-constructed or constant value instead (an 'empty
+    input' short-cut) loses the value - for a matrix, its shape."""
+    h = header(ctx)
+    n = 0
+    for fam in ("unwrap", "wrap"):
+        for t, f in sorted(h.specialisations(fam).items()):
+            params = [p.get("name") for p in f.get("inner", []) if p.get("kind") == "ParmVarDecl" and p.get("name")]
+            if not params or _body(f) is None:
+                continue
+            # def-use closure: local -> names its initialiser / assignments / element stores read
+            deps: Dict[str, Set[str]] = {}
+            for x in walk(f):
+                if x.get("kind") == "VarDecl" and x.get("name"):
+                    deps.setdefault(x["name"], set()).update(r for y in walk(x) for r in [ref_name(y)] if r)
+                if x.get("kind") in ("BinaryOperator", "CompoundAssignOperator") and x.get("opcode", "").endswith("=") and \
+                        x.get("opcode") not in ("==", "!=", "<=", ">=") and len(x.get("inner", [])) == 2:
+                    lhs_names = [r for y in walk(x["inner"][0]) for r in [ref_name(y)] if r]
+                    rhs_names = {r for y in walk(x["inner"][1]) for r in [ref_name(y)] if r}
+                    for ln in lhs_names:
+                        deps.setdefault(ln, set()).update(rhs_names)
+                if x.get("kind") == "CXXOperatorCallExpr" and len(x.get("inner", [])) == 3 and callee(x) in ("operator=",):
+                    lhs_names = [r for y in walk(x["inner"][1]) for r in [ref_name(y)] if r and not r.startswith("operator")]
+                    rhs_names = {r for y in walk(x["inner"][2]) for r in [ref_name(y)] if r}
+                    for ln in lhs_names:
+                        deps.setdefault(ln, set()).update(rhs_names)
+                # a call that fills one of its arguments from the others (memcpy(dst, src, n), std::copy ...)
+                if x.get("kind") == "CallExpr" and callee(x) in ("memcpy", "memmove", "copy", "strcpy", "strncpy"):
+                    a = call_args(x)
+                    if len(a) >= 2:
+                        dst = [r for y in walk(a[0]) for r in [ref_name(y)] if r]
+                        src = {r for z in a[1:] for y in walk(z) for r in [ref_name(y)] if r}
+                        for ln in dst:
+                            deps.setdefault(ln, set()).update(src)
+
+            def reaches(names: Set[str]) -> bool:
+                seen, todo = set(), list(names)
+                while todo:
+                    v = todo.pop()
+                    if v in params:
+                        return True
+                    if v in seen:
+                        continue
+                    seen.add(v)
+                    todo += list(deps.get(v, ()))
+                return False
+            for k, r in enumerate([x for x in walk(f) if x.get("kind") == "ReturnStmt"]):
+                if not r.get("inner"):
+                    continue
+                n += 1
+                used = {nm for y in walk(r) for nm in [ref_name(y)] if nm}
+                ok = reaches(used)
+                rep.add(rid, f"{fam}<{t}>:return #{k + 1}: value computed from the argument", ok,
+                        f"this return hands back a value that does not depend on `{params[0]}` (names used: {sorted(used) or 'none'}): the "
+                        f"converted value is replaced by a default / constant on this path (e.g. an empty m x 0 matrix comes back 0 x 0)",
+                        hloc(r))
+    if n < 12:
+        raise AnalysisError(f"{rep.prop}/{rid}: only {n} return statements found in the wrap/unwrap specialisations")
